@@ -12,6 +12,9 @@
 // also equal the three-valued reference evaluation; soft-deleted rows must be
 // unchanged cell by cell after every scoped write. No SQL text is inspected.
 //
+// Part 3 (nested.go): nested relation joins / preloads of depth 2-3 through
+// soft-delete and plain models in every combination, against plain twins.
+//
 // Part 2 (histories): explicit-state BFS over create / soft-delete /
 // unscoped-delete / restore on 3 keys against a 3-state-per-key model.
 package main
@@ -510,6 +513,9 @@ func main() {
 	// part 2: histories
 	hs := exploreHistories(run, args.Tier)
 
+	// part 3: nested relation joins / preloads through soft-delete and plain models
+	ns := exploreNested(run)
+
 	st := s.st
 	frac := 0.0
 	if st.cases > 0 {
@@ -530,6 +536,9 @@ func main() {
 				run.HarnessError("vacuous: finisher %s executed only %d cases", f.name, st.byFin[i])
 			}
 		}
+		if msg := nestedVacuity(ns); msg != "" {
+			run.HarnessError("vacuous (nested relations): %s", msg)
+		}
 		if hs.States < 27 || hs.Transitions < 300 {
 			run.HarnessError("vacuous: history exploration reached %d states / %d transitions", hs.States, hs.Transitions)
 		}
@@ -542,36 +551,56 @@ func main() {
 	run.Assume("PropagateUnscoped=true is exercised on chains of 0-1 calls x all finishers plus the Unscoped+NewDB nested-handle probe (both config values); longer chains run with the default config; histories use create / soft-delete / unscoped-delete / Save (re-create) on 3 keys")
 	run.Assume("Take returns an arbitrary member: compared on found/not-found plus membership in the reference set; programs that are invalid SQL for both the soft-delete model and its twin are skipped (counted in invalid_for_both)")
 	run.Finish(map[string]interface{}{
-		"evaluations":                   st.execs,
-		"distinct_nontrivial":           s.nontriv.Len(),
-		"rule":                          fmt.Sprintf("unit catalogue of %d units (verif/condgram); every chain of 0-1 Where/Or/Not calls (leading Or included) over all units x 22 finishers; chains of 2 calls over the class representatives (quick Rep=1, thorough Rep>=1) x 22 finishers, thorough also one call over all units + one over the representatives x Find/Count/Update/Delete; inline conditions; PropagateUnscoped on and the Unscoped+NewDB nested-handle probe; chains of 3 calls over 5 shapes (quick) / the class representatives (thorough) x Find/Count/Update/Delete. Each case runs scoped on softs vs plains (live rows only) and Unscoped on softs vs plain_alls (all rows); evaluations = executions. Non-trivial = the scoped and the Unscoped observation of the case differ, i.e. a soft-deleted twin satisfies the condition and a leak would be visible; distinct by (chain, inline, finisher, config)", len(units[vSoft])),
-		"samples":                       s.samples.List(),
-		"exhaustive":                    complete && hs.Complete,
-		"cases":                         st.cases,
-		"generated":                     generated,
-		"not_applicable_skipped":        st.skippedNA,
-		"invalid_for_both":              st.bothErr,
-		"scoped_differs_from_unscoped":  st.sensitive,
-		"sensitive_fraction_pct":        int(frac * 100),
-		"cases_with_or":                 st.withOr,
-		"cases_with_leading_or":         st.leadingOr,
-		"reference_checked_executions":  st.refChecked,
-		"nested_handle_cases":           st.nested,
-		"cases_with_input_tag":          st.tagged,
-		"distinct_outcomes":             s.outcomes.Len(),
-		"by_finisher":                   byFin,
-		"states":                        hs.States,
-		"transitions":                   hs.Transitions,
-		"traces_validated_against_impl": hs.Transitions + hs.Steps,
-		"history_paths":                 hs.Paths,
-		"history_steps_validated":       hs.Steps,
-		"history_depth":                 hs.Depth,
-		"history_probe_checks":          hs.Probes,
+		"evaluations":                          st.execs,
+		"distinct_nontrivial":                  s.nontriv.Len(),
+		"rule":                                 fmt.Sprintf("unit catalogue of %d units (verif/condgram); every chain of 0-1 Where/Or/Not calls (leading Or included) over all units x 22 finishers; chains of 2 calls over the class representatives (quick Rep=1, thorough Rep>=1) x 22 finishers, thorough also one call over all units + one over the representatives x Find/Count/Update/Delete; inline conditions; PropagateUnscoped on and the Unscoped+NewDB nested-handle probe; chains of 3 calls over 5 shapes (quick) / the class representatives (thorough) x Find/Count/Update/Delete. Plus nested relation paths of depth 2-3 over {soft,plain}^depth from a soft or plain root (single nested Joins entry, step-wise, InnerJoins, ON conditions, conditions on the joined aliases, nested Preload with/without conditions, Joins+Preload) x Find/Count/First, with soft-deleted rows at every level, each compared with the same path over plain twin tables. Each case runs scoped on softs vs plains (live rows only) and Unscoped on softs vs plain_alls (all rows); evaluations = executions. Non-trivial = the scoped and the Unscoped observation of the case differ, i.e. a soft-deleted twin satisfies the condition and a leak would be visible; distinct by (chain, inline, finisher, config)", len(units[vSoft])),
+		"samples":                              s.samples.List(),
+		"exhaustive":                           complete && hs.Complete,
+		"cases":                                st.cases,
+		"generated":                            generated,
+		"not_applicable_skipped":               st.skippedNA,
+		"invalid_for_both":                     st.bothErr,
+		"scoped_differs_from_unscoped":         st.sensitive,
+		"sensitive_fraction_pct":               int(frac * 100),
+		"cases_with_or":                        st.withOr,
+		"cases_with_leading_or":                st.leadingOr,
+		"reference_checked_executions":         st.refChecked,
+		"nested_handle_cases":                  st.nested,
+		"cases_with_input_tag":                 st.tagged,
+		"distinct_outcomes":                    s.outcomes.Len(),
+		"by_finisher":                          byFin,
+		"states":                               hs.States,
+		"transitions":                          hs.Transitions,
+		"traces_validated_against_impl":        hs.Transitions + hs.Steps,
+		"nested_cases":                         ns.Cases,
+		"nested_executions":                    ns.Execs,
+		"nested_invalid_for_both":              ns.InvalidBoth,
+		"nested_scoped_differs_from_unscoped":  ns.Sensitive,
+		"nested_level_sensitive_cases_by_form": ns.LevelSensitive,
+		"nested_distinct_outcomes":             ns.Outcomes,
+		"nested_samples":                       ns.Samples,
+		"history_paths":                        hs.Paths,
+		"history_steps_validated":              hs.Steps,
+		"history_depth":                        hs.Depth,
+		"history_probe_checks":                 hs.Probes,
 	})
 }
 
 func replay(args mc.Args, s *sinks) {
 	// a replay file holds either a condition case or a history
+	var nprobe struct {
+		Nested *NCase `json:"nested"`
+	}
+	if err := mc.LoadReplay(args.Replay, &nprobe); err == nil && nprobe.Nested != nil {
+		os.Setenv("VERIF_KNOWN_FINDINGS", "/nonexistent")
+		run := mc.NewRun("C08", args.Tier, "exploration")
+		replayNested(run, *nprobe.Nested)
+		if run.NumViolations() > 0 {
+			os.Exit(1)
+		}
+		fmt.Println("no violation")
+		return
+	}
 	var probe struct {
 		History []hop `json:"history"`
 	}
